@@ -102,6 +102,22 @@ def histOp (k : Kind) (fuel order : Nat) (h : Int) (npts nls : Nat) (calls : Lis
     (s, acc.2 ++ [runStr res.run ++ s!" b{b} r{s.rebinds} v{v} e{(res.evs.map List.length).sum} p" ++ joinWith "," (s.prev.map optStr)])) (s0, [])
   joinWith " | " outs
 
+def iop? (h : Int) (s : String) : Option IOp :=
+  match s.splitOn "/" with
+  | ["C", o, a] => do pure (.create (← o.toNat?) (ownStep h (← args? a)))
+  | ["A", it, k] => do pure (.advance (← it.toNat?) (← k.toNat?))
+  | ["P", o, d] => do pure (.propagate (← o.toNat?) (← iOfStr? d))
+  | _ => none
+
+/-- interleaved generators: per operation `dates source end` (source = the orbit object whose trajectory the states lie on) -/
+def interOp (k : Kind) (fuel order : Nat) (h : Int) (props : List Nat) (epochs : List Int) (ops : List IOp) : String :=
+  let w : IWorld := { kind := k, propOf := fun o => props.getD o o, epoch := fun o => epochs.getD o 0, h := h, order := order }
+  let (_, outs) := ops.foldl (fun (acc : ISt × List String) op =>
+    let (s, out, fin) := istep w fuel acc.1 op
+    let src := match out.head? with | some (_, o) => toString o | none => "-"
+    (s, acc.2 ++ [joinWith "," (out.map (fun x => toString x.1)) ++ " " ++ src ++ " " ++ finStr fin])) ({}, [])
+  joinWith " | " outs
+
 def handle : List String → Option String
   | ["c08iter", k, fuel, order, h, npts, a, rs] =>
     -- `rs`: lengths of the integration steps the real propagator took in its main loop (`-`: none recorded: all `h`)
@@ -109,6 +125,13 @@ def handle : List String → Option String
       | some k, some fuel, some order, some h, some npts, some a, some rs =>
         runStr (iterRun (mkWorld k order h npts rs) fuel 0 (ownStep h a) false).2
       | _, _, _, _, _, _, _ => "bad-op")
+  | "c08inter" :: k :: fuel :: order :: h :: props :: epochs :: ops =>
+    some (match kindOf? k, fuel.toNat?, order.toNat?, iOfStr? h, (props.splitOn ".").mapM String.toNat?, (epochs.splitOn ".").mapM iOfStr? with
+      | some k, some fuel, some order, some h, some props, some epochs =>
+        match ops.mapM (iop? h) with
+        | some ops => interOp k fuel order h props epochs ops
+        | none => "bad-op"
+      | _, _, _, _, _, _ => "bad-op")
   | "c08hist" :: k :: fuel :: order :: h :: npts :: nls :: calls =>
     some (match kindOf? k, fuel.toNat?, order.toNat?, iOfStr? h, npts.toNat?, nls.toNat?, calls.mapM call? with
       | some k, some fuel, some order, some h, some npts, some nls, some calls => histOp k fuel order h npts nls calls
